@@ -11,6 +11,11 @@
 // One case = one program + one of three parts selected from the tape
 // (VERIF_PROP=C11 forces a C11 part, VERIF_PROP=C02 forces the C02 part):
 //   part 0  C11 error mode     part 1  C02 fwd+bwd     part 2  C11 good mode
+// Variants: interval sdbm soct bool_int dbm (numeric + boolean statements) and
+// aa_int (adds array statements; membership of array cells is observed through
+// loads).  A failure is localised to the backward transfer function that lost the
+// state (classifier tag bwd_{err,good}_<statement kind> / fwdbwd_safe_but_violated_
+// <statement kind>); see failures_bwd/known_tags.txt for the tags of known defects.
 #include "core/report.hpp"
 #include "core/tape.hpp"
 #include "prog/domains.hpp"
@@ -66,6 +71,52 @@ static bool large_magnitude(const dom_t &inv, const std::vector<var_t> &vars) {
       return true;
   }
   return false;
+}
+
+// statement kind used in classifier tags (stmtkind.hpp + range stores told apart)
+static std::string kind_of(stmt_t &s) {
+  if (s.is_arr_write()) {
+    auto &st = static_cast<crab::cfg::statement_visitor<label_t, z_number, varname_t>::arr_store_t &>(s);
+    if (!st.lb_index().equal(st.ub_index()))
+      return "arr_store_range";
+  }
+  return stmt_kind(s);
+}
+
+// gamma-membership: prog/member.hpp on the scalars; array contents (array variants
+// only) are observed the way the properties observe them, through a load of each
+// written cell into a fresh variable on a copy of the value.
+static const Program *g_prog = nullptr;
+static std::string mem(const State &s, const dom_t &A, const MemberOpts &mo) {
+  std::string r = member(s, A, mo);
+  if (!r.empty() || s.arr.empty() || !g_prog)
+    return r;
+  for (auto &kv : s.arr) {
+    z_number es(0);
+    for (unsigned i = 0; i < g_prog->arrs.size(); i++)
+      if (g_prog->arrs[i] == kv.first)
+        es = g_prog->arr_elem_size[i];
+    if (es <= 0)
+      continue;
+    unsigned n = 0;
+    for (auto &cell : kv.second) {
+      if (n++ >= 8)
+        break;
+      if (cell.first % es != 0)
+        continue;
+      dom_t C(A);
+      // the ghost variable of a cell of es bytes is an integer of 8*es bits
+      var_t tmp((*g_prog->vfac)["__cell" + es.get_str()], crab::INT_TYPE, (unsigned)(8 * (int64_t)es));
+      C.array_load(tmp, kv.first, lin_t(es), lin_t(cell.first));
+      if (C.is_bottom())
+        return "MA load of " + to_str(kv.first) + "[" + cell.first.get_str() + "] made the value bottom";
+      auto i = C.at(tmp);
+      using bound_t = ikos::bound<z_number>;
+      if (i.is_bottom() || !(i.lb() <= bound_t(cell.second) && bound_t(cell.second) <= i.ub()))
+        return "MA load of " + to_str(kv.first) + "[" + cell.first.get_str() + "] = " + to_str(i) + " misses " + cell.second.get_str();
+    }
+  }
+  return "";
 }
 
 // ---- recording of one concrete execution ---------------------------------------
@@ -162,7 +213,7 @@ static std::string localize(BwdResult &br, const std::vector<Visit> &path, unsig
     if (!v.exited || v.after.size() != n)
       return "unlocalized";
     const State &last = n == 0 ? v.entry : v.after[n - 1];
-    std::string r = member(last, P, mo);
+    std::string r = mem(last, P, mo);
     if (!r.empty()) {
       detail = "the state leaving the block " + last.str() + " is not in the join of the successors' preconditions " + to_str(P);
       return "join_successors";
@@ -189,17 +240,56 @@ static std::string localize(BwdResult &br, const std::vector<Visit> &path, unsig
     if (s > last_idx)
       continue;
     dom_t prev = T.preconditions();
-    std::string r = member(before((unsigned)s), prev, mo);
+    std::string r = mem(before((unsigned)s), prev, mo);
     if (!r.empty()) {
       detail = "backward `" + to_str(*stmts[s]) + "` : post " + to_str(postv) + " -> pre " + to_str(prev) + " (forward invariant " +
                to_str(pp.at(stmts[s])) + ") loses the state " + before((unsigned)s).str() + " : " + r;
-      return stmt_kind(*stmts[s]);
+      return kind_of(*stmts[s]);
     }
   }
   detail = "re-applying the backward transformer to the block from the successors' preconditions keeps the state; the stored "
            "precondition differs from that image";
   return "fixpoint";
 }
+
+// C11 only speaks about executions "consistent with the supplied forward
+// invariants".  Invariants of a real forward run contain every execution when the
+// forward analysis is sound -- which is property C01, not this one.  Before a C11
+// failure is reported the execution is therefore checked against the supplied
+// invariants (block entries and, re-propagated, every statement).
+static bool consistent_with_forward(BwdResult &br, const std::vector<Visit> &path, unsigned upto, const MemberOpts &mo, std::string &why) {
+  if (!br.fwd)
+    return true;
+  dom_t top;
+  for (unsigned j = 0; j <= upto && j < path.size(); j++) {
+    const Visit &v = path[j];
+    dom_t inv = top.make_top();
+    auto it = br.fwd->find(v.b);
+    if (it != br.fwd->end())
+      inv = it->second;
+    std::string r = mem(v.entry, inv, mo);
+    if (!r.empty()) {
+      why = "state " + v.entry.str() + " at the entry of " + v.b + " is outside the forward invariant " + to_str(inv) + " : " + r;
+      return false;
+    }
+    fwd_tr_t F(inv);
+    unsigned idx = 0;
+    for (auto &s : br.cfg->get_node(v.b)) {
+      if (idx >= v.after.size())
+        break;
+      s.accept(&F);
+      r = mem(v.after[idx], F.get_abs_value(), mo);
+      if (!r.empty()) {
+        why = "state " + v.after[idx].str() + " after `" + to_str(s) + "` in " + v.b + " is outside the propagated forward invariant " + to_str(F.get_abs_value()) + " : " + r;
+        return false;
+      }
+      idx++;
+    }
+  }
+  return true;
+}
+
+static const char *FWD_EXCLUDES = "forward_invariant_excludes_execution";
 
 // checks visits 0..upto of the recorded path against B; returns the number of
 // distinct visited blocks whose precondition is neither top nor bottom
@@ -213,7 +303,7 @@ static unsigned check_path(CaseCtx &ctx, BwdResult &br, Rec &rec, unsigned upto,
     const dom_t &B = br.pre(v.b);
     if (!B.is_top() && !B.is_bottom())
       informative.insert(v.b);
-    std::string r = member(v.entry, B, mo);
+    std::string r = mem(v.entry, B, mo);
     if (ctx.want(prop))
       R().checks++;
     if (!r.empty()) {
@@ -224,6 +314,15 @@ static unsigned check_path(CaseCtx &ctx, BwdResult &br, Rec &rec, unsigned upto,
   if (bad >= 0 && ctx.want(prop)) {
     const Visit &v = rec.path[bad];
     std::string detail;
+    if (!consistent_with_forward(br, rec.path, upto, mo, detail)) {
+      // not a C11 matter (the forward analysis is unsound here: C01's business)
+      R().diag(FWD_EXCLUDES);
+      if (ctx.verbose)
+        ctx.log << "execution not consistent with the supplied forward invariants: " << detail << "\n";
+      if (std::string(prop) == "C02")
+        throw Fail{prop, FWD_EXCLUDES, detail};
+      return 0;
+    }
     std::string culprit = rec.record_states ? localize(br, rec.path, (unsigned)bad, violation && (unsigned)bad == upto, mo, detail) : "unlocalized";
     std::ostringstream os;
     os << "state " << v.entry.str() << " at the entry of block " << v.b << " (visit " << bad << " of ";
@@ -304,20 +403,39 @@ void run_case(const uint8_t *data, size_t size, CaseCtx &ctx) {
   // ---- program -------------------------------------------------------------------
   Program prog;
   GenOpts go;
-  go.caps = DOM_CAPS & ~(unsigned)CAP_ARRAY;
+  go.caps = DOM_CAPS; // array statements only for the array variants (aa_int, ...)
+  // unsigned and bitwise operations all take the same backward path ("forget the
+  // lhs") and most of their executions leave the concrete model: keep them rare
+  if (t.pick(4) != 3)
+    go.caps &= ~(unsigned)CAP_UNSIGNED;
+  if (t.pick(3) != 2)
+    go.caps &= ~(unsigned)CAP_BITWISE;
+  // error mode: a violated assertion ends the execution, so assertions scattered by
+  // the generator make most violating executions one block long.  Usually keep only
+  // the 1-2 assertions appended below (preferably to the exit block): the error
+  // states then have to be carried backwards through the whole program.
+  if (part == 0 && t.pick(3) != 2)
+    go.caps &= ~(unsigned)CAP_ASSERT;
   go.const_cap = VERIF_CONST_CAP;
   go.force_exit = true;
   Gen gen(t, go, prog);
   gen.build();
   cfg_t &cfg = *prog.cfg;
+  g_prog = &prog;
   unsigned added_edges = connect_to_exit(t, prog);
   // both properties are about assertions: make sure there is at least one, preferably
   // late in the program (appended to a decoded block; 0 = the last block)
   if (part != 2) {
     unsigned extra = (prog.n_asserts == 0 ? 1 : 0) + (t.pick(3) == 2 ? 1 : 0);
     for (unsigned i = 0; i < extra; i++) {
-      const label_t &l = prog.labels[prog.labels.size() - 1 - t.pick((unsigned)prog.labels.size())];
-      cfg.get_node(l).assertion(gen.assert_constraint(), crab::cfg::debug_info("verif", 1, 1, go.first_assert_id + prog.n_asserts));
+      const label_t &l = t.pick(2) == 0 ? cfg.exit() : prog.labels[prog.labels.size() - 1 - t.pick((unsigned)prog.labels.size())];
+      cst_t c = gen.assert_constraint();
+      if (t.pick(2) == 0) { // a bound on one variable: representable by every domain, also when negated
+        var_t v = gen.ivar();
+        z_number k(t.small_int(8));
+        c = t.flag() ? cst_t(lin_t(v) <= lin_t(k)) : cst_t(lin_t(v) >= lin_t(k));
+      }
+      cfg.get_node(l).assertion(c, crab::cfg::debug_info("verif", 1, 1, go.first_assert_id + prog.n_asserts));
       prog.n_asserts++;
     }
   }
@@ -370,13 +488,37 @@ void run_case(const uint8_t *data, size_t size, CaseCtx &ctx) {
   auto any_large = [&](const dom_t &d) { return INT64_WEIGHTS && large_magnitude(d, scalars); };
 
   // start state of execution e: sigma0 or a perturbation of it (inside init if required)
-  auto start_state = [&](unsigned e, bool inside_init) {
+  // `guide` (optional): an abstract value whose interval bounds are used as extra
+  // candidate values (the bound itself and the first value outside it): boundary
+  // testing of the reported precondition.  Only the choice of inputs is guided; the
+  // oracle is the same for every state.
+  auto start_state = [&](unsigned e, bool inside_init, const dom_t *guide) {
     State s = sigma0;
     if (e == 0)
       return s;
     for (auto &v : scalars)
       if (t.pick(3) == 0)
         s.num[v] = v.get_type().is_bool() ? z_number((int64_t)(t.u8() & 1)) : z_number(t.small_int(10));
+    if (guide && !guide->is_bottom() && !guide->is_top()) {
+      z_number lim = z_number(1) << z_number(INT64_WEIGHTS ? 30 : 200);
+      for (auto &v : scalars) {
+        if (!v.get_type().is_integer())
+          continue;
+        unsigned k = t.pick(8);
+        if (k < 4)
+          continue;
+        auto itv = guide->at(v);
+        if (itv.is_bottom())
+          continue;
+        auto bnd = (k & 1) ? itv.ub() : itv.lb();
+        if (!bnd.is_finite() || *bnd.number() > lim || *bnd.number() < -lim)
+          continue;
+        z_number x = *bnd.number();
+        if (k >= 6)
+          x = (k & 1) ? x + z_number(1) : x - z_number(1);
+        s.num[v] = x;
+      }
+    }
     if (inside_init) {
       bool ok = true;
       for (auto &c : init_csts) {
@@ -461,7 +603,7 @@ void run_case(const uint8_t *data, size_t size, CaseCtx &ctx) {
       label_t start = cfg.entry();
       if (!inv_mode && e > 0 && t.pick(3) == 0)
         start = prog.labels[t.pick((unsigned)prog.labels.size())];
-      State s = start_state(e, inv_mode != 0);
+      State s = start_state(e, inv_mode != 0, &br.pre(start));
       Rec rec;
       rec.reached = &reached;
       rec.violated = &violated;
@@ -575,7 +717,7 @@ void run_case(const uint8_t *data, size_t size, CaseCtx &ctx) {
   // keep the first violating execution of each assertion for the localisation of a wrong verdict
   std::map<int64_t, std::vector<Visit>> witness;
   for (unsigned e = 0; e < nexec; e++) {
-    State s = start_state(e, true);
+    State s = start_state(e, true, nullptr);
     Rec rec;
     std::map<int64_t, bool> r1, v1;
     rec.reached = &r1;
@@ -634,6 +776,11 @@ void run_case(const uint8_t *data, size_t size, CaseCtx &ctx) {
         br.B.emplace(l, Bw[l]);
       Rec rec;
       rec.path = witness.at(id);
+      std::string why;
+      if (!consistent_with_forward(br, rec.path, (unsigned)rec.path.size() - 1, mo, why)) {
+        ctx.log << "blame: the first forward pass already excludes the violating execution: " << why << "\n";
+        return FWD_EXCLUDES;
+      }
       try {
         check_path(ctx, br, rec, (unsigned)rec.path.size() - 1, true, mo, "", "C02");
       } catch (const Fail &f) {
